@@ -319,7 +319,8 @@ class GeoBoxBase:
             roi = numpy.s_[ty : ty + ny, tx : tx + nx]
 
         if isinstance(roi, int):
-            roi = (slice(roi, roi + 1), slice(None, None))
+            # not slice(roi, roi + 1): for roi == -1 that is slice(-1, 0), an empty/negative range
+            roi = (roi, slice(None, None))
 
         if isinstance(roi, slice):
             roi = (roi, slice(None, None))
